@@ -100,6 +100,18 @@ theorem C35_missing_in_list_fails_at_eval (g : G) (ps : Props) (row : Row) (p : 
   · rfl
   · simp [substE, hp, eval, plookup, bind, Except.bind]
 
+/-- scripts: the substitution lemma holds for every expression of every statement run with
+the same parameter map, one after another — substitution depends on `ps` and the expression
+only, not on what was executed before.  (That the ENGINE keeps its parameter map from one
+`execute` to the next is not a statement about this model: it is compared differentially by
+the script cases of `harness/src/bin/c35.rs`.) -/
+theorem C35_subst_expr_lemma_on_scripts (g : G) (ps P : Props) (row : Row) (script : List (List E)) :
+    script.map (fun es => (es.map (substE ps)).map (eval g P row))
+      = script.map (fun es => es.map (eval g (ps ++ P) row)) := by
+  apply List.map_congr_left
+  intro es _
+  simp [List.map_map, Function.comp, C35_subst_expr_lemma]
+
 /-! ### three-valued logic: null is not false -/
 
 /-- AND / OR / XOR / NOT of the model are Kleene's: an unknown operand stays unknown unless
